@@ -314,23 +314,35 @@ class Connection(object):
         pass
 
     def _avail_tx_notls(self, *args, **kwargs):
-        ''' Callback for new :py:obj:`__s_notls` TX data. '''
-        self.__avail_tx_notls_pend = None
+        ''' Callback for new :py:obj:`__s_notls` TX data.
+        The socket watch passes arguments, the one-shot idle callback does not.
+        '''
+        if not args:
+            self.__avail_tx_notls_pend = None
         if self.__s_tls is not None or self.__s_notls is None:
             return False
 
         cont = self._tx_proxy(self.__s_notls)
+        if not args:
+            # the watch goes on, and is still the one in __avail_tx_notls_id
+            return False
         if not cont:
             self.__avail_tx_notls_id = None
         return cont
 
     def _avail_tx_tls(self, *args, **kwargs):
-        ''' Callback for new :py:obj:`__s_tls` TX data. '''
-        self.__avail_tx_tls_pend = None
+        ''' Callback for new :py:obj:`__s_tls` TX data.
+        The socket watch passes arguments, the one-shot idle callback does not.
+        '''
+        if not args:
+            self.__avail_tx_tls_pend = None
         if self.__s_tls is None:
             return False
 
         cont = self._tx_proxy(self.__s_tls)
+        if not args:
+            # the watch goes on, and is still the one in __avail_tx_tls_id
+            return False
         if not cont:
             self.__avail_tx_tls_id = None
         return cont
